@@ -300,10 +300,10 @@ LEVELS["C09"] = dict(
 def _lv(text, ref, tech, note):
     return dict(text=text, design_ref=ref, technique=tech, note=note)
 
-LEVELS["C10"] = _lv("Generated intruder attempts at every kind of decision point with a byte-identical-state oracle for refusals and an exactly-once/announced oracle for acceptances; the full 5x9 actor/action matrix is hit in every run.", "DESIGN.md section 3 C10", "stateful property-based testing (rapid): metamorphic state-unchanged oracle over generated illegal actions", "Sequential attempts only (concurrent submission is C16). Attempts are made at quiescent decision points.")
+LEVELS["C10"] = _lv("Generated intruder attempts at every kind of decision point with a byte-identical-state oracle for refusals and an exactly-once/announced oracle for acceptances; the full 5x9 actor/action matrix is hit in every run.", "DESIGN.md section 3 C10", "stateful property-based testing (rapid): metamorphic state-unchanged oracle over generated illegal actions", "Sequential attempts in c10, simultaneous submissions in c10b (concurrent submission is C16). Attempts are made at quiescent decision points.")
 LEVELS["C11"] = _lv("Generated response orders and withheld responders against the asked-set, no-early-advance, self-advance and termination obligations, plus a real 17 s timeout leg run side by side.", "DESIGN.md section 3 C11", "stateful property-based testing (rapid) with a history oracle over the backend call log; batched real-timeout sampling", "No-early-advance is checked after the other responses were observed as processed through the ready-group accessor; a premature advance still in flight could be missed (false negative only).")
 LEVELS["C12"] = _lv("Generated blind schedules with updates at ordered moments relative to the open; the in-force values are tracked by the harness and compared with what the backend was given, what was charged and what was published.", "DESIGN.md section 3 C12", "stateful property-based testing (rapid) with a reference model of the blinds in force", "pokerface skips blind collection for BB-only structures (labelled, not blamed on the table).")
-LEVELS["C13"] = _lv("Generated fault plans through the public GameBackend interface; unchanged-on-failure, chain-integrity and differential pure-replay oracles.", "DESIGN.md section 3 C13", "fault-injecting property-based testing (rapid) with a differential replay oracle", "Only clean failures (error, no state) are injected.")
+LEVELS["C13"] = _lv("Generated fault plans through the public GameBackend interface; unchanged-on-failure, chain-integrity and differential pure-replay oracles.", "DESIGN.md section 3 C13", "fault-injecting property-based testing (rapid) with a differential replay oracle", "Failures are injected before the real backend is reached or after it worked (lost reply); a backend that returns a corrupted state together with nil is not generated.")
 LEVELS["C14"] = _lv("Counters compared with the harness's log of accepted actions, flag implications checked on every published snapshot.", "DESIGN.md section 3 C14", "stateful property-based testing (rapid) with an action-log reference model", "On this tree most chance flags are never set (validateGameStatisticGameState tests for the event 'Started'), so their implications hold vacuously; reported in DESIGN.md.")
 LEVELS["C15"] = _lv("Wall-clock bracket (no tolerance constant) on every turn deadline, exact arithmetic on extensions, cleared-at checks.", "DESIGN.md section 3 C15", "stateful property-based testing (rapid) with an interval oracle", "Second granularity: errors below the bracket width are invisible.")
 
